@@ -2,15 +2,18 @@ import Acra.Drv.FTI
 import Acra.Drv.FTI2
 import Acra.Drv.Float
 import Acra.Drv.Search
+import Acra.Drv.Mpeg
 namespace Acra.Drv
 def allCodecs : List Codec := List.flatten [
   ftiCodecs,
-  fti2Codecs
+  fti2Codecs,
+  Mpeg.mpegCodecs
 ]
 def allFuncs : List Func := List.flatten [
   ftiFuncs,
   fti2Funcs,
   floatFuncs,
-  searchFuncs
+  searchFuncs,
+  Mpeg.mpegFuncs
 ]
 end Acra.Drv
